@@ -242,6 +242,12 @@ theorem step_refines (cfg : Cfg) (hps : 0 < cfg.pageSize) {g : LSeg α} {a : ASe
     by_cases h : a.sel = 0
     · rw [if_pos h, if_pos h]; exact ⟨rfl, r⟩
     · rw [if_neg h, if_neg h]; exact ⟨rfl, r.repr, r.noNull, rfl⟩
+  | home =>
+    rw [LSeg.step, ASeg.step]
+    rw [r.sel]
+    by_cases h : a.sel = 0
+    · rw [if_pos h, if_pos h]; exact ⟨rfl, r⟩
+    · rw [if_neg h, if_neg h]; exact ⟨rfl, r.repr, r.noNull, rfl⟩
   | list from_ n =>
     rw [LSeg.step, ASeg.step]
     rw [hm]
